@@ -101,12 +101,12 @@ interface class a node carries (NIC, RouterInterface, SwitchPort, the wireless r
 an override there would bypass the node-is-on test, and would appear here as a new entry. -/
 theorem C12_gen_nic_enable_defs :
     Gen.Power.nicEnableDefs =
-      [("IPWirelessNetworkInterface@airspace.py", "enable", "super+hello"),
-       ("WirelessNetworkInterface@airspace.py", "enable", "guarded"),
-       ("WirelessNetworkInterface@airspace.py", "disable", "plain-disable"),
-       ("IPWiredNetworkInterface@base.py", "enable", "super+hello"),
+      [("IPWirelessNetworkInterface@airspace.py", "enable", "translated"),
+       ("WirelessNetworkInterface@airspace.py", "enable", "translated"),
+       ("WirelessNetworkInterface@airspace.py", "disable", "translated"),
+       ("IPWiredNetworkInterface@base.py", "enable", "translated"),
        ("NetworkInterface@base.py", "enable", "abstract"), ("NetworkInterface@base.py", "disable", "abstract"),
-       ("WiredNetworkInterface@base.py", "enable", "guarded"), ("WiredNetworkInterface@base.py", "disable", "plain-disable"),
+       ("WiredNetworkInterface@base.py", "enable", "translated"), ("WiredNetworkInterface@base.py", "disable", "translated"),
        ("WirelessAccessPoint@wireless_access_point.py", "enable", "other"),
        ("WirelessAccessPoint@wireless_access_point.py", "disable", "other"),
        ("WirelessNIC@wireless_nic.py", "enable", "other"), ("WirelessNIC@wireless_nic.py", "disable", "other")] := by decide
